@@ -99,23 +99,21 @@ class Sentinel:
         st.append = append
 
 
-def make_container(slot, bad):
-    """(tags, fields) dict pair carrying `bad` in `slot` (or None, None)."""
+def make_containers(slot, bad):
+    """Variants of (tags, fields) dict pairs carrying `bad` in `slot` (or [(None, None)])."""
     if slot == "tag_key":
-        return {bad: "v"}, None
+        return [({bad: "v"}, None), ({bad: None}, None), ({"k": "a", bad: ""}, None)]
     if slot == "tag_value":
-        return {"k": bad}, None
+        return [({"k": bad}, None), ({"brand_new": bad}, None), ({"j": bad, "k": "a"}, None)]
     if slot == "field_key":
-        return None, {bad: 1}
+        return [(None, {bad: 1}), (None, {bad: None}), (None, {"x": 1, bad: 0.5})]
     if slot == "field_value":
-        return None, {"x": bad}
-    return None, None
+        return [(None, {"x": bad}), (None, {"brand_new": bad}), (None, {"y": bad, "x": 1})]
+    return [(None, None)]
 
 
 def entry_calls(slot, bad):
     """Yield (entry point name, callable(db) that supplies `bad` in `slot`)."""
-    from tinyflux import MeasurementQuery, Point, TagQuery
-
     hashable = True
     try:
         hash(bad)
@@ -123,9 +121,16 @@ def entry_calls(slot, bad):
         hashable = False
     if slot in ("tag_key", "field_key") and not hashable:
         return
-    tags, fields = make_container(slot, bad)
+    for variant, (tags, fields) in enumerate(make_containers(slot, bad)):
+        yield from _entry_calls(slot, bad, tags, fields, variant)
+
+
+def _entry_calls(slot, bad, tags, fields, variant):
+    from tinyflux import MeasurementQuery, Point, TagQuery
+
     Q = TagQuery().k.exists()
     ALL = MeasurementQuery().noop()
+    v = f"#{variant}" if variant else ""
 
     def ctor(db):
         if slot == "time":
@@ -138,7 +143,7 @@ def entry_calls(slot, bad):
             p = Point(fields=fields)
         db.insert(p)
 
-    yield "Point()+insert", ctor
+    yield "Point()+insert" + v, ctor
 
     def assign(db):
         p = Point(time=from_us(BASE_US), tags={"k": "a"}, fields={"x": 1})
@@ -152,7 +157,7 @@ def entry_calls(slot, bad):
             p.fields = fields
         db.insert(p)
 
-    yield "attribute-assignment+insert", assign
+    yield "attribute-assignment+insert" + v, assign
 
     if slot == "measurement":
         yield "insert(measurement=)", lambda db: db.insert(Point(time=from_us(BASE_US)), measurement=bad)
@@ -176,11 +181,21 @@ def entry_calls(slot, bad):
             return {"tags": lambda t: dict(tags)}
         return {"fields": lambda f: dict(fields)}
 
-    for style, mk in (("static", kw_static), ("callable", kw_callable)):
-        yield f"update({style})", lambda db, mk=mk: db.update(Q, **mk())
-        yield f"update_all({style})", lambda db, mk=mk: db.update_all(**mk())
-        yield f"handle.update({style})", lambda db, mk=mk: db.measurement("m0").update(Q, **mk())
-        yield f"handle.update_all({style})", lambda db, mk=mk: db.measurement("m0").update_all(**mk())
+    def kw_callable_merged():
+        # the idiom from the docs: return the old mapping plus the change
+        if tags is not None:
+            return {"tags": lambda t: {**t, **tags}}
+        return {"fields": lambda f: {**f, **fields}}
+
+    styles = [("static", kw_static), ("callable", kw_callable)]
+    if tags is not None or fields is not None:
+        styles.append(("callable", kw_callable_merged))
+    for si, (style, mk) in enumerate(styles):
+        sv = v + ("+old" if si == 2 else "")
+        yield f"update({style}){sv}", lambda db, mk=mk: db.update(Q, **mk())
+        yield f"update_all({style}){sv}", lambda db, mk=mk: db.update_all(**mk())
+        yield f"handle.update({style}){sv}", lambda db, mk=mk: db.measurement("m0").update(Q, **mk())
+        yield f"handle.update_all({style}){sv}", lambda db, mk=mk: db.measurement("m0").update_all(**mk())
 
 
 def whole_container_calls():
@@ -234,7 +249,7 @@ def run(res, tier, seed, shard, nshards):
                     call(db)
                 except Exception as e:
                     exc = e
-            res.count(f"entry.{label}")
+            res.count(f"entry.{label.split('#')[0].split('+old')[0]}")
             res.count("raised" if exc is not None else "returned")
             res.seen((label, slot, vname, cfg))
             if len(res.samples) < 5 and (res.evaluations % 97 == 1):
